@@ -63,7 +63,7 @@ package signed256
 //@   ensures [normalised] err == nil ==> (z.neg ==> leval(z.mag, 0, 4) != 0)
 
 //@ func ParseDecimal
-//@   property C05
+//@   property C05 C03
 //@   opt wide=272
 //@   ensures [accepts_exactly_optionally_signed_digits_in_range] (err == nil) == (len(s) > 0 && digitsFit(ite(s[0] == 43 || s[0] == 45, s[1:], s)))
 //@   ensures [value] err == nil ==> valOf(res0.neg, leval(res0.mag, 0, 4)) == ite(s[0] == 45, 0 - decVal(s[1:]), decVal(ite(s[0] == 43, s[1:], s)))
@@ -72,7 +72,7 @@ package signed256
 // ParseNormalizedDecimal reads digits only (the sign comes separately): it accepts exactly
 // the digit strings in range and agrees with SetFromDecimal on the value.
 //@ func ParseNormalizedDecimal
-//@   property C05
+//@   property C05 C03
 //@   opt wide=272
 //@   loop 1 invariant 0 <= rangepos && rangepos <= len(digits) && (forall k int :: 0 <= k && k < rangepos ==> 48 <= digits[k] && digits[k] <= 57)
 //@   ensures [accepts_exactly_digits_in_range] (err == nil) == digitsFit(digits)
